@@ -12,6 +12,8 @@ import (
 	"github.com/spf13/viper"
 	wrgl "github.com/wrgl/wrgl/cmd/wrgl"
 	"github.com/wrgl/wrgl/pkg/local"
+	"github.com/wrgl/wrgl/pkg/objects"
+	"github.com/wrgl/wrgl/pkg/ref"
 )
 
 var cliMu sync.Mutex
@@ -64,4 +66,29 @@ func Wrgl(wrglDir string, stdin io.Reader, args ...string) (out string, err erro
 // OpenRepo opens the stores of a repository directory.
 func OpenRepo(wrglDir string) (*local.RepoDir, error) {
 	return local.NewRepoDir(wrglDir, "")
+}
+
+// RepoHandle bundles the opened stores of a repository directory.
+type RepoHandle struct {
+	RD *local.RepoDir
+	DB objects.Store
+	RS ref.Store
+}
+
+func OpenRepoHandle(wrglDir string) (*RepoHandle, error) {
+	rd, err := local.NewRepoDir(wrglDir, "")
+	if err != nil {
+		return nil, err
+	}
+	db, err := rd.OpenObjectsStore()
+	if err != nil {
+		rd.Close()
+		return nil, err
+	}
+	return &RepoHandle{RD: rd, DB: db, RS: rd.OpenRefStore()}, nil
+}
+
+func (h *RepoHandle) Close() {
+	h.DB.Close()
+	h.RD.Close()
 }
